@@ -74,6 +74,8 @@ class Batch:
         self.summaries = []
         self.crashes = []
         self.budget_s = budget_s
+        self.emit_dir = None
+        self.emitted = []
 
     def _spawn(self, idx, frm, count, extra=()):
         prog = os.path.join(self.tmp, "progress-%s-%d-%d" % (self.variant, idx, frm))
@@ -81,8 +83,40 @@ class Batch:
         if self.budget_s:
             cmd += ["--budget-s", str(self.budget_s)]
         cmd += list(extra)
+        if self.emit_dir:
+            f = os.path.join(self.emit_dir, "sc-%s-%d-%d.jsonl" % (self.variant, idx, frm))
+            self.emitted.append(f)
+            cmd += ["--emit", f]
         p = subprocess.Popen(cmd, stdout=subprocess.PIPE, stderr=subprocess.PIPE, text=True)
         return {"p": p, "from": frm, "count": count, "progress": prog, "idx": idx}
+
+    def run_files(self, files):
+        """Differential mode: replays the scenarios recorded by another build (one worker per file)."""
+        jobs = []
+        for i, f in enumerate(files):
+            prog = os.path.join(self.tmp, "progress-%s-b%d" % (self.variant, i))
+            cmd = [self.binary, "worker", "--prop", self.prop, "--tier", self.tier, "--seed-base", str(self.seed), "--batch", f, "--progress", prog]
+            jobs.append({"p": subprocess.Popen(cmd, stdout=subprocess.PIPE, stderr=subprocess.PIPE, text=True), "progress": prog, "file": f})
+        for j in jobs:
+            out, err = j["p"].communicate()
+            rc = j["p"].returncode
+            got = False
+            for line in out.splitlines():
+                if line.startswith("SUMMARY "):
+                    self.summaries.append(json.loads(line[8:]))
+                    got = True
+            if rc == 0 and got:
+                continue
+            inflight = None
+            try:
+                with open(j["progress"], "rb") as f:
+                    b = f.read(8)
+                    if len(b) == 8:
+                        inflight = int.from_bytes(b, "little")
+            except OSError:
+                pass
+            why = "HANG" if (rc == 3 and "HANG" in out) else ("exit%d" % rc if rc >= 0 else signal.Signals(-rc).name)
+            self.crashes.append({"variant": self.variant, "index": inflight, "why": why, "stderr": err[-800:], "file": j["file"]})
 
     def run(self, nproc=NPROC, extra=()):
         if self.runs <= 0:
@@ -135,8 +169,14 @@ class Batch:
                 if nxt < end:
                     jobs.append(self._spawn(j["idx"], nxt, end - nxt, extra))
 
-    def trace_scenario(self, index):
+    def trace_scenario(self, index, file=None):
         """Re-runs one seed index with a trace file and rebuilds the scenario that was in flight."""
+        if file is not None:
+            for line in open(file):
+                d = json.loads(line)
+                if d["i"] == index:
+                    return d["scenario"]
+            return None
         path = os.path.join(self.tmp, "trace-%s-%d" % (self.variant, index))
         cmd = [self.binary, "worker", "--prop", self.prop, "--tier", self.tier, "--seed-base", str(self.seed), "--from", str(index), "--count", "1", "--trace", path]
         try:
@@ -235,8 +275,20 @@ def run_check(prop, tier, seed):
     cap_s = float(os.environ.get("HBSIM_BUDGET_S", "0"))
     for v, n in plan:
         b = Batch(prop, tier, v, n, seed, tmp, budget_s=cap_s)
+        if cfg.get("differential"):
+            b.emit_dir = tmp
         b.run()
         batches.append(b)
+        if cfg.get("differential"):
+            # the very same scenarios, replayed under the other scanner back-end
+            other = cfg["differential"]
+            ok, dt, _ = hb.build(other)
+            build_s[other] = round(dt, 1)
+            if not ok:
+                harness_error("build of variant %s failed" % other)
+            b2 = Batch(prop, tier, other, n, seed, tmp, budget_s=cap_s)
+            b2.run_files([f for f in b.emitted if os.path.exists(f)])
+            batches.append(b2)
     # ---- merge
     tot = {"runs": 0, "executions": 0, "ops": 0, "callbacks": 0, "nontrivial_runs": 0, "refusals": 0, "alloc_calls": 0, "elements_created": 0, "enum_targets": 0, "enum_execs": 0}
     probes, fired, cbs, foreign, worlds = {}, {}, {}, {}, {}
@@ -268,7 +320,7 @@ def run_check(prop, tier, seed):
                 violations.append(v)
             foreign_samples += s["foreign_samples"]
         for c in b.crashes:
-            sc = b.trace_scenario(c["index"]) if c["index"] is not None else None
+            sc = b.trace_scenario(c["index"], c.get("file")) if c["index"] is not None else None
             cls = "hang/cpu" if c["why"] == "HANG" else "crash/" + c["why"]
             if sc is None:
                 harness_error("worker died (%s) and the in-flight run could not be reconstructed: %s" % (c["why"], c["stderr"]))
@@ -292,6 +344,21 @@ def run_check(prop, tier, seed):
             also_seen.append("%s in %s (%s), run index %s" % key[:1] + (sc["world"], viol.get("op_kind"), v["seed_index"]) if False else "%s world=%s op=%s run=%s" % (viol["class"], sc["world"], viol.get("op_kind"), v["seed_index"]))
             continue
         rp = mini.Replayer(hb.binary(v["variant"]), tmp)
+        if viol["class"].startswith("differential/"):
+            # needs both back-ends: not minimised; the replay file carries the transcript of the first build
+            os.makedirs(rdir, exist_ok=True)
+            path = os.path.join(rdir, "%s-%s.json" % (str(v["seed"]), viol["class"].replace("/", "_")))
+            with open(path, "w") as f:
+                json.dump({"property": prop, "variant": v["variant"], "violation": viol, "seed_index": v["seed_index"], "verif_seed": seed, "expect_transcript": v.get("expect_transcript"), "scenario": sc}, f, indent=1)
+            cls2, _, _ = rp.run_file(path)
+            if cls2 is None:
+                harness_error("differential replay file %s does not reproduce" % path)
+            k = match_known(known, prop, viol, sc)
+            if k is not None:
+                known_hits.append((k, path))
+            else:
+                reported.append((viol, path))
+            continue
         cls0, viol0, owned0 = rp.run(sc)
         if cls0 is None:
             harness_error("violation %s of run %s did not reproduce on replay (nondeterminism in the harness)" % (viol["class"], v["seed_index"]))
